@@ -817,7 +817,7 @@ class Path:
     concretization: Concretization
     pending: list
 
-    # a condition -> a set of previous conditions that are related to the condition
+    # a condition -> the set of conditions that are (transitively) related to the condition
     related: dict[int, set[int]]
     # a variable -> a set of conditions in which the variable appears
     var_to_conds: dict[any, set[int]]
@@ -951,7 +951,7 @@ class Path:
         # store the branching condition aside until the new path is activated.
         path.pending.append(cond)
 
-        # shallow copy because each entry references earlier entries thus remains unchanged later
+        # shallow copy because the sets are replaced, never mutated, when later conditions are added
         path.related = self.related.copy()
         path.var_to_conds = deepcopy(self.var_to_conds)
         # shared across different paths
@@ -1020,8 +1020,14 @@ class Path:
         self.concretization.process_cond(cond)
 
         # update dependency relation
+        # note: a later condition can connect earlier ones (e.g., `x <= y` followed by `y < 4`),
+        # so every condition of the connected group is updated, not only the new one.
+        # the sets are replaced rather than mutated, as they may be shared with other paths.
         var_set = self.get_var_set(cond)
-        self.related[idx] = self._get_related(var_set)
+        related = self._get_related(var_set)
+        related.add(idx)
+        for related_idx in related:
+            self.related[related_idx] = related
         for var in var_set:
             self.var_to_conds[var].add(idx)
 
